@@ -13,10 +13,29 @@ import UF.Gen.Facts
 namespace UF.C14
 open UF UF.Prog
 
+/-- An access row `(method, field, r|w, lock held)` is properly locked when it happens under the
+    matching mutex: writes under `Lock`, reads under `Lock` or `RLock`. -/
+def properlyLocked (row : String × String × String × String) : Bool :=
+  let lock := row.2.2.2
+  let kind := row.2.2.1
+  ["Lock(recv)", "Lock(cacheMu)"].contains lock ||
+    (kind == "r" && ["RLock(recv)", "RLock(cacheMu)"].contains lock)
+
 /-- FACT (regenerated from /repo on every run by go/ast): which methods touch `RuleStorage.cache`,
     `FileRuleList.File/buffer`, `NetworkRule.regex/invalid` through their receiver, whether they read or
-    write, and which lock they hold at that point -- equals the model's action table. -/
-theorem c14_fact_lock_table : Facts.lockTable = actionTable := by decide
+    write, and which lock they hold at that point.  Every such access is either one of the model's
+    action-table rows (the few accesses that are deliberately unlocked: construction-time and single-owner
+    paths) or happens under the matching lock -- so extracting a locked section into a helper method does
+    not disturb the obligation, while dropping or narrowing a lock does. -/
+theorem c14_fact_lock_table :
+    Facts.lockTable.all (fun row => actionTable.contains row || properlyLocked row) = true := by decide
+
+/-- …and every critical section the model's atomic actions stand for still exists in the code: each
+    locked row of the action table has a row of the extracted table with the same field, access kind
+    and lock. -/
+theorem c14_fact_sections_exist :
+    (actionTable.filter properlyLocked).all (fun row =>
+      Facts.lockTable.any (fun r => r.2 == row.2)) = true := by decide
 
 /-- Sequential consistency of the model, for EVERY schedule: any number of concurrent queries `qs`,
     any list of thread ids of any length (a thread id may repeat arbitrarily, be starved, or not exist),
